@@ -1073,15 +1073,24 @@ func internTransparent(w *World, tname, path string) string {
 		instrsOf(fn, func(in ssa.Instruction) {
 			if fa, ok := in.(*ssa.FieldAddr); ok {
 				if tn, f := fieldOfAddr(fa); tn == "ZeroAllocTokenizer" && f == "tempStrings" {
-					reads = true
+					// a constructor (the pool's New function, literal or named) only stores into it
+					onlyStores := fa.Referrers() != nil
+					if fa.Referrers() != nil {
+						for _, ref := range *fa.Referrers() {
+							if st, isSt := ref.(*ssa.Store); !isSt || st.Addr != ssa.Value(fa) {
+								if _, isDbg := ref.(*ssa.DebugRef); !isDbg {
+									onlyStores = false
+								}
+							}
+						}
+					}
+					if !onlyStores {
+						reads = true
+					}
 				}
 			}
 		})
 		if !reads {
-			continue
-		}
-		// constructor literal in the pool's New function only writes it
-		if fn.Parent() != nil && len(fn.Params) == 0 {
 			continue
 		}
 		readers = append(readers, ssaName(fn))
